@@ -151,6 +151,18 @@ func (c *FnCtx) sev(sc *specCtx, e *SExpr) *Term {
 		body := c.sevBool(sc2, e.Args[0])
 		c.qdepth--
 		pats := c.inferPatterns(bs, body)
+		if len(e.Trigs) > 0 {
+			pats = nil
+			c.qdepth++
+			for _, g := range e.Trigs {
+				var group []*Term
+				for _, t := range g {
+					group = append(group, c.sev(sc2, t))
+				}
+				pats = append(pats, group)
+			}
+			c.qdepth--
+		}
 		if e.Name == "forall" {
 			return mkForall(bs, body, pats...)
 		}
@@ -822,6 +834,9 @@ func mentionsAny(t *Term, names map[string]bool) bool {
 
 // containsInterp: arithmetic inside a trigger makes it unusable for most solvers
 func containsInterp(t *Term) bool {
+	if hasInterp(t) {
+		return true
+	}
 	for _, a := range t.Args {
 		switch a.Op {
 		case "+", "-", "*", "ite", "and", "or", "not", "=", "<", "<=", "div", "mod":
